@@ -112,27 +112,45 @@ UNBALANCED_SPECIAL = [
 
 
 def redox_triggers(rng, n):
-    """Alcohol / carbonyl pairs that reach the reagent post-processing."""
-    out = []
+    """Alcohol / carbonyl pairs that reach the reagent post-processing. One class per line; the classes are
+    served round-robin so that a small n still holds every class (every reagent template: H2, borohydride,
+    cyanoborohydride, aluminium hydride for the reductions, PCC and the two permanganate templates for the
+    oxidations)."""
     alkyls = ["C", "CC", "CCC", "CC(C)", "c1ccccc1", "C1CCCCC1", "CCCC", "c1ccc(Cl)cc1", "COC", "CCOC"]
-    for a in alkyls:
-        out += [
-            a + "CO>>" + a + "C=O",
-            a + "CO>>" + a + "C(=O)O",
-            a + "CO.O>>" + a + "C(=O)O",
-            a + "C=O>>" + a + "C(=O)O",
-            a + "C(O)C>>" + a + "C(=O)C",
-            a + "C=O>>" + a + "CO",
-            a + "C(=O)C>>" + a + "C(O)C",
-            a + "C(=O)OC>>" + a + "CO",
-            a + "C(=O)O>>" + a + "CO",
-            a + "C(=O)Cl>>" + a + "CO",
-            a + "C(N)=O>>" + a + "CN",
-            a + "CO.[O]>>" + a + "C=O.O",
-            a + "C=O.[H][H]>>" + a + "CO",
-        ]
-    rng.shuffle(out)
-    return out[:n]
+    classes = [
+        "{a}CO>>{a}C=O",                  # primary alcohol -> aldehyde
+        "{a}CO>>{a}C(=O)O",               # primary alcohol -> acid
+        "{a}CO.O>>{a}C(=O)O",
+        "{a}C=O>>{a}C(=O)O",              # aldehyde -> acid
+        "{a}C(O)C>>{a}C(=O)C",            # secondary alcohol -> ketone
+        "{a}C=O>>{a}CO",                  # aldehyde reduction
+        "{a}C(=O)C>>{a}C(O)C",            # ketone reduction
+        "{a}C(=O)OC>>{a}CO.CO",           # ester reduction, carbon balanced (rule-based route)
+        "{a}C(=O)O>>{a}CO.O",             # acid reduction
+        "{a}C(=O)Cl>>{a}CO.Cl",           # acyl chloride reduction
+        "{a}C(N)=O>>{a}CN.O",             # amide reduction
+        "{a}C(=O)OC>>{a}CO",              # the same with a carbon deficit (MCS route first)
+        "{a}C(=O)O>>{a}CO",
+        "{a}C(=O)Cl>>{a}CO",
+        "{a}C(N)=O>>{a}CN",
+        "{a}CO.[O]>>{a}C=O.O",
+        "{a}C=O.[H][H]>>{a}CO",
+        "{a}C#N>>{a}CN",                  # nitrile reduction ("other")
+        "{a}[N+](=O)[O-]>>{a}N.O.O",      # nitro reduction
+    ]
+    per_class = []
+    for c in classes:
+        al = list(alkyls)
+        rng.shuffle(al)
+        per_class.append([c.format(a=a) for a in al])
+    out = []
+    k = 0
+    while len(out) < n and any(per_class):
+        lst = per_class[k % len(per_class)]
+        if lst:
+            out.append(lst.pop())
+        k += 1
+    return out
 
 
 def marker_inputs():
